@@ -454,6 +454,57 @@ theorem matched_status_is_recorded (rt : Route) (c v l : Bytes) (p : Prog) (pre 
   obtain ⟨h1, h2, _, _⟩ := prog_recorded_is_received p hv
   exact ⟨h1.symm, h2.symm⟩
 
+/-- every exit of the dispatch answers like some valid writer program: the matched route's (or the NoRoute handler's)
+    own program, or the router's responders `WriteHeader(404|405|410); Write(body)` -/
+theorem lemma_notFound_prog (f : Facts) (p : Prog) (l : Option Bytes) (hv : progValid p) :
+    ∃ q : Prog, progValid q ∧ (notFound f p l).status = q.resp.1 ∧ (notFound f p l).size = q.resp.2.1 := by
+  unfold notFound
+  split
+  · exact ⟨.explicit 405 "Method Not Allowed\n".length, by simp [progValid, finalCode, isInfo], rfl, rfl⟩
+  · split
+    · exact ⟨p, hv, rfl, rfl⟩
+    · exact ⟨.explicit 404 "Not Found\n".length, by simp [progValid, finalCode, isInfo], rfl, rfl⟩
+
+theorem lemma_versioned_prog (f : Facts) (p : Prog) (hv : progValid p) :
+    ∃ q : Prog, progValid q ∧ (versioned false f p).status = q.resp.1 ∧ (versioned false f p).size = q.resp.2.1 := by
+  have hg : ∀ rt, ∃ q : Prog, progValid q ∧ (gone false f rt).status = q.resp.1 ∧ (gone false f rt).size = q.resp.2.1 :=
+    fun rt => ⟨.explicit 410 (sunsetBody f.version), by simp [progValid, finalCode, isInfo], rfl, rfl⟩
+  unfold versioned
+  split
+  · split
+    · exact hg _
+    · exact ⟨p, hv, rfl, rfl⟩
+  · split
+    · exact lemma_notFound_prog f p _ hv
+    · split
+      · exact hg _
+      · exact ⟨p, hv, rfl, rfl⟩
+
+/-- **recorded = received on every exit of the dispatch**: whatever path the request takes, the status / size the model
+    reports are those of a valid writer program, hence (by `prog_recorded_is_received`) exactly what the wrapper reads
+    for the end callback and what net/http sent -/
+theorem dispatch_status_is_recorded (f : Facts) (p : Prog) (hv : progValid p) :
+    ∃ q : Prog, progValid q ∧
+      (dispatch false f p).status = (({} : RW).run q.ops).StatusCode ∧ (dispatch false f p).size = (({} : RW).run q.ops).size ∧
+      (dispatch false f p).status = (({} : RW).run q.ops).under.clientStatus ∧
+      (dispatch false f p).size = (({} : RW).run q.ops).under.size := by
+  have key : ∃ q : Prog, progValid q ∧ (dispatch false f p).status = q.resp.1 ∧ (dispatch false f p).size = q.resp.2.1 := by
+    unfold dispatch
+    split
+    · exact ⟨p, hv, rfl, rfl⟩
+    · split
+      · exact ⟨p, hv, rfl, rfl⟩
+      · split
+        · exact ⟨p, hv, rfl, rfl⟩
+        · split
+          · exact ⟨p, hv, rfl, rfl⟩
+          · split
+            · exact lemma_versioned_prog f p hv
+            · exact lemma_notFound_prog f p _ hv
+  obtain ⟨q, hq, h1, h2⟩ := key
+  obtain ⟨r1, r2, r3, r4⟩ := prog_recorded_is_received q hq
+  exact ⟨q, hq, h1.trans r1.symm, h2.trans r2.symm, h1.trans r3.symm, h2.trans r4.symm⟩
+
 example : progValid (Prog.twice 201 17) ∧ progValid (Prog.flushed 500 4) ∧ progValid Prog.silent := by
   refine ⟨by simp [progValid, finalCode, isInfo], by simp [progValid], by simp [progValid]⟩
 
